@@ -156,14 +156,16 @@ def c15_models(tier):
     n = 5 if tier == "quick" else 6
     # sparse events: some grid points bear no event, so "event-bearing timesteps" differs from the grid
     cs = [cand(G[k], "q", "A", 100 + k, 100 + k) for k in range(n)] + [cand(G[1] + 3600, "x"), cand(G[0] - 60, "x")]
-    folds = [FOLD_ALL, (G[1], G[3]), (G[0] + 1, G[n - 2] + 5), (G[2], G[2])]
+    # the third fold starts just after a timestep and ends on a MIDNIGHT stamp: the 10:00 timestep of that day is outside it
+    folds = [FOLD_ALL, (G[1], G[3]), (G[0] + 1, DAY * (n - 2)), (G[2], G[2])]
     eplens = (0, 1, 2, 3, 4) if tier == "quick" else (0, 1, 2, 3, 4, 5, 6)
     ms = [env_model("folds", G[:n], cs, [1], 4 if tier == "quick" else n + 1, [0], folds, [(False, -1), (True, -1)],
                     eplens=eplens, maxcalls=5 if tier == "quick" else 7, reset_anywhere=False,
                     invariants=C15_INV, properties=["DoneIsAbsorbing"], reuse="extend")]
-    # an episode length passed to reset() holds for that episode only: later plain resets use the configured one again
+    # an episode length passed to reset() holds for that episode only: later plain resets use the configured one again;
+    # an execution delay changes nothing to the number of decisions of an episode
     ms.append(env_model("reset-length", G[:n], cs[:n], range(1, n + 1), 0, [0], [FOLD_ALL], [(False, -1)], eplens=(0, 2),
-                        resetlens=(0, 3, 4), maxcalls=5, reset_anywhere=True, invariants=C15_INV))
+                        resetlens=(0, 3, 4), maxcalls=5, reset_anywhere=True, invariants=C15_INV, delays=(0, 1)))
     # liveness under weak fairness of Step: an episode of n decisions does end (no state constraint; the call bound exceeds
     # the longest episode)
     ms.append(env_model("folds-live", G[:4], cs[:4] + cs[n:], [1], 2, [0], folds[:2], [(False, -1)], eplens=(0, 1, 2),
